@@ -598,7 +598,8 @@ Definition hyp_total_hyps (c : case) : bool := small c && in_class (c_reg c) && 
 Definition is_cow (t : ty) : bool :=
   match path_ident (t_path t) with Some n => String.eqb n "Cow" | None => false end.
 
-Fixpoint cow_dfs (fuel : nat) (r : registry) (id : N) (vis : list N) : bool * list N :=
+(** depth-first search for an entry satisfying [P] *)
+Fixpoint reach_dfs (P : N -> ty -> bool) (fuel : nat) (r : registry) (id : N) (vis : list N) : bool * list N :=
   match fuel with
   | O => (false, vis)
   | S fuel' =>
@@ -606,12 +607,29 @@ Fixpoint cow_dfs (fuel : nat) (r : registry) (id : N) (vis : list N) : bool * li
       else match lookup r id with
            | None => (false, id :: vis)
            | Some t =>
-               if is_cow t then (true, vis)
-               else fold_left (fun (acc : bool * list N) (c : N) => if fst acc then acc else cow_dfs fuel' r c (snd acc))
+               if P id t then (true, vis)
+               else fold_left (fun (acc : bool * list N) (c : N) =>
+                                 if fst acc then acc else reach_dfs P fuel' r c (snd acc))
                               (param_ids t ++ def_ids (t_def t)) (false, id :: vis)
            end
   end.
-Definition reaches_cow (r : registry) (id : N) : bool := fst (cow_dfs (S (List.length r)) r id []).
+Definition reaches (P : N -> ty -> bool) (r : registry) (id : N) : bool :=
+  fst (reach_dfs P (S (List.length r)) r id []).
+Definition reaches_cow (r : registry) : N -> bool := reaches (fun _ t => is_cow t) r.
+
+(** known finding F15: the marker decision of an example is taken on the
+    instantiation at hand ([create_type_ir] of THIS entry) while the generated
+    item comes from the FIRST entry with that path; when parameter recovery by
+    id coincidence makes the two disagree on "has unused parameters", the
+    example has / lacks the [__ignore] / PhantomData element contrary to the item. *)
+Definition model_unused (r : registry) (s : settings) (t : ty) : bool :=
+  match has_unused_type_params r s t with Ok b => b | _ => false end.
+Definition marker_mismatch (r : registry) (s : settings) (_ : N) (t : ty) : bool :=
+  is_composite_or_variant (t_def t) && (2 <=? N.of_nat (List.length (t_path t))) &&
+  match find (fun e => path_eqb (t_path (snd e)) (t_path t) && is_composite_or_variant (t_def (snd e))) r with
+  | Some (_, t0) => negb (Bool.eqb (model_unused r s t0) (model_unused r s t))
+  | None => false
+  end.
 
 Definition obs_fails (c : case) (m : option pmod) (o : eobs) : bool :=
   match eo_out o with
@@ -624,7 +642,17 @@ Definition obs_fails (c : case) (m : option pmod) (o : eobs) : bool :=
   | _ => false
   end.
 
+Definition known_class (c : case) (m : option pmod) : bool :=
+  let s := settings_of (c_spec c) in
+  for_obs (fun _ o => if obs_fails c m o
+                      then reaches_cow (c_reg c) (eo_id o) || reaches (marker_mismatch (c_reg c) s) (c_reg c) (eo_id o)
+                      else true) c.
+
 Definition known_F14 (c : case) : bool :=
   let m := match parsed_module c with Some (Some m) => Some m | _ => None end in
-  ex_obs (fun _ o => obs_fails c m o) c &&
-  for_obs (fun _ o => if obs_fails c m o then reaches_cow (c_reg c) (eo_id o) else true) c.
+  ex_obs (fun _ o => obs_fails c m o && reaches_cow (c_reg c) (eo_id o)) c && known_class c m.
+
+Definition known_F15 (c : case) : bool :=
+  let m := match parsed_module c with Some (Some m) => Some m | _ => None end in
+  let s := settings_of (c_spec c) in
+  ex_obs (fun _ o => obs_fails c m o && reaches (marker_mismatch (c_reg c) s) (c_reg c) (eo_id o)) c && known_class c m.
